@@ -7,6 +7,8 @@ From EG Require Import Base.Prelude Base.Casts Model.Geometry Model.Rrect Model.
 From EG Require Import Gen.SrcGeometry Gen.SrcImage Gen.SrcRawIter Gen.SrcImagePixels Gen.SrcFont Gen.SrcText Gen.SrcGlyph Gen.SrcCircle Gen.SrcRrect Gen.SrcRrect2 Gen.SrcImageDraw.
 From EG Require Import Proofs.SrcGeometry Proofs.SrcColor Proofs.SrcImagePixels.
 Set Default Timeout 60.
+(* Model/Imageraw.v fixes usize at 64 bit: the generated definitions are taken at that width *)
+#[local] Existing Instance Casts.usize64_w.
 
 Definition log_fill (log : list (rect * ContiguousPixels)) (r : rect) (c : ContiguousPixels) : list (rect * ContiguousPixels) * (unit + unit) :=
   (log ++ [(r, c)], inl tt).
@@ -63,11 +65,11 @@ Proof.
   rewrite src_Rectangle_intersection_eq by assumption. reflexivity.
 Qed.
 
-Definition img_ok (img : image_raw) : Prop :=
+Definition src_img_ok (img : image_raw) : Prop :=
   0 <= sw (ir_size img) <= i32_max /\ 0 <= sh (ir_size img) <= i32_max /\ 0 < ir_bpp img <= u32_max /\ 0 <= data_width img <= u32_max.
 
 Theorem src_sub_image_draw_eq s :
-  img_ok (SubImage_ImageRaw_parent s) -> size_i32 (sz (SubImage_ImageRaw_area s)) ->
+  src_img_ok (SubImage_ImageRaw_parent s) -> size_i32 (sz (SubImage_ImageRaw_area s)) ->
   px (tl (SubImage_ImageRaw_area s)) <= i32_max -> py (tl (SubImage_ImageRaw_area s)) <= i32_max ->
   let img := SubImage_ImageRaw_parent s in
   let r := src_SubImage_ImageRaw_draw (raw_load (ir_bpp img) (ir_alt img)) (ir_bpp img) log_fill s [] in
@@ -79,7 +81,7 @@ Proof.
 Qed.
 
 Theorem src_sub_image_draw_sub_image_eq s area :
-  img_ok (SubImage_ImageRaw_parent s) ->
+  src_img_ok (SubImage_ImageRaw_parent s) ->
   let a := translate_rect area (tl (SubImage_ImageRaw_area s)) in
   size_i32 (sz a) -> px (tl a) <= i32_max -> py (tl a) <= i32_max ->
   let img := SubImage_ImageRaw_parent s in
